@@ -95,3 +95,35 @@ Definition close_ok (c : c2case) (obs : list (nat * pkt)) : bool :=
 
 Definition c2ok_close (c : c2ccase) : bool :=
   c2ok_spec (fst c) && match snd c with None => true | Some obs => close_ok (fst c) obs end.
+
+(* ---- the network of specification nodes (Node/Network.v) against real workflows: the harness gives, for a real
+   workflow run, the derivations (which packets each action derived, to which input, and the own result of the
+   nodes that derive nothing) in creation order; the model - per-node FIFO, row-complete rule, join - computes the
+   answers the source gets, which must be the real ones ---- *)
+From Uf Require Node.Network.
+Definition netcase := (nat * list (Network.lab pkt) * list pkt)%type.
+Definition NIn := Network.LIn pkt.
+Definition NProc := Network.LProc pkt.
+
+Definition net_run_strict (N : nat) (ls : list (Network.lab pkt)) : option (Network.net pkt) :=
+  fold_left (fun o l => match o with Some s => Network.step pkt join N s l | None => None end) ls (Some (Network.net0 pkt)).
+
+Fixpoint iter_n {A} (n : nat) (f : A -> A) (x : A) : A := match n with 0 => x | S k => iter_n k f (f x) end.
+
+(* answer whatever can be answered, last node first, until nothing is left to answer *)
+Definition net_settle (N : nat) (st : Network.net pkt) : Network.net pkt :=
+  iter_n (Network.n_next pkt st)
+         (fun s => fold_left (Network.step' pkt join N) (map (Network.LAns pkt) (rev (seq 0 N))) s) st.
+
+Definition net_ok (c : netcase) : bool :=
+  let '(N, ls, got) := c in
+  match net_run_strict N ls with
+  | Some st0 =>
+      let st := net_settle N st0 in
+      list_eqb pkt_eqb (map snd (rev (Network.n_out pkt st))) got
+      && forallb (fun n => match Network.n_q pkt st n with [] => true | _ => false end) (seq 0 N)
+  | None => false
+  end.
+
+Definition c2any := (c2ccase + netcase)%type.
+Definition c2ok_any (c : c2any) : bool := match c with inl x => c2ok_close x | inr y => net_ok y end.
